@@ -55,10 +55,10 @@ def gen_cases(tier, seed):
             s = stable_hash(seed, "C07", "exhaust", name, i)
             cases.append({"strategy": "saw", "entry": name, "seed": s, "cmode": ["idx", "none"][i % 2], "amode": "none", "regime": "cold",
                           "nmax": 9 if tier == "quick" else 14, "bs": "all"})
-    for i in range({"quick": 40, "thorough": 1500}[tier]):
+    for i in range({"quick": 72, "thorough": 1800}[tier]):
         s = stable_hash(seed, "C07", "iet", i)
         cases.append({"strategy": "iet", "entry": "IntervalEstimationThreshold", "seed": s, "cmode": CMODES[i % 3],
-                      "amode": "none", "regime": "rows", "nmax": 10})
+                      "amode": AMODES[(i // 3) % 3], "regime": "rows", "nmax": 10, "perm_all": bool((i // 9) % 2)})
     for k, c in enumerate(cases):
         c["id"] = "%s-%s-%04d" % (c["strategy"], c["entry"], k)
     return cases
@@ -140,6 +140,8 @@ def run_case(desc):
             pool = np.arange(n)
         k = int(rng.randint(1, len(pool) + 1))
         cands = rng.choice(pool, size=k, replace=False)
+        if (desc["seed"] >> 12) % 5 == 0 or desc.get("perm_all"):
+            cands = gen.rng_for("c07perm", desc["seed"]).permutation(n)     # every sample, in an arbitrary order
         if rng.rand() < 0.5:          # index arrays are accepted in any order; rows of a boolean matrix follow that order
             cands = np.sort(cands)
         n_rows = n
@@ -161,8 +163,10 @@ def run_case(desc):
             annots[rng.randint(n_c)] = False          # a candidate without any available annotator
         if not annots.any():
             annots[0, 0] = True
-    if is_iet and amode == "bool":
-        annots, amode = None, "none"
+    # IntervalEstimationThreshold with a boolean matrix only keeps samples all of whose annotators are available (DESIGN 7.3
+    # no. 34: not judged): the number of pairs is then not the monitor's to predict, availability of what is returned is
+    iet_bool = bool(is_iet and amode != "none")        # (an index subset of the annotators restricts in the same way)
+
     if e is not None and e.domain is not None:
         # documented / third-party domain of the wrapped strategy (e.g. GaussianNB on coinciding rows), judged on the
         # sample-level view the wrapper hands to it
@@ -193,6 +197,11 @@ def run_case(desc):
     kw = dict(X=X.copy(), y=Y.copy(), batch_size=bs, return_utilities=True)
     if cands is not None:
         kw["candidates"] = cands.copy()
+        if cmode == "idx" and (desc["seed"] >> 8) % 4 == 0:
+            # numpy-style negative indices name the same samples (rows of a boolean matrix keep following the given order)
+            neg = gen.rng_for("c07neg", desc["seed"]).rand(len(cands)) < 0.5
+            kw["candidates"] = np.where(neg, cands - n, cands)
+            contracts.count("C07.negative-candidate-indices")
     if annots is not None:
         kw["annotators"] = annots.copy()
     seed = int(desc["seed"] % 100000)
@@ -265,7 +274,7 @@ def run_case(desc):
             if not isinstance(idx, np.ndarray) or a.ndim != 2 or a.shape[1] != 2 or not np.issubdtype(a.dtype, np.integer):
                 add("indices-not-int-array-of-shape-(k,2)", "type %s shape %s dtype %s" % (type(idx).__name__, a.shape, a.dtype))
             else:
-                if len(a) != k_exp:
+                if len(a) != k_exp and not iet_bool:
                     add("wrong-number-of-pairs", "%d pairs returned, expected min(batch_size, available pairs) = %d" % (len(a), k_exp))
                 pairs = [tuple(p) for p in a.tolist()]
                 if len(set(pairs)) != len(pairs):
